@@ -296,3 +296,52 @@ FUNCTIONS.update({
     props=['C14'],
   ),
 })
+
+# ---------------------------------------------------------------------------- the socket stack the library builds (C08)
+# VarzSocketWrapper around ScalesSocket: what the transports' abstract `Socket.connected` stands for is
+# `wrapper.isOpen()` == `inner.handle is not None`.  The wrapper's close() acts only when its own flag is set, so the
+# chain "failed open -> transport Close() -> state reads Closed" needs: flag clear => inner already closed.
+CLASSES.update({
+  'VarzSocketWrapper': dict(file='scales/varz.py', path='VarzSocketWrapper', bases=[], fields={
+    '_socket': 'ScalesSocket', '_varz': 'any', '_is_open': 'bool'}),
+})
+PREDICATES.update({
+  'WrapInv': (['w'], 'allocated(w._socket) and (w._is_open or w._socket.handle is None)'),
+})
+EXTERNS.update({
+  'GSock.setsockopt': dict(params=[('level', 'any'), ('opt', 'any'), ('val', 'any')], notes='TCP_NODELAY; no effect on connectedness'),
+})
+FUNCTIONS.update({
+  'ScalesSocket.isOpen': dict(file='scales/scales_socket.py', cls='ScalesSocket', inline=True),
+  'ScalesSocket.close': dict(
+    file='scales/scales_socket.py', cls='ScalesSocket', returns='none',
+    requires=[], ensures=['self.handle is None', 'implies(old(self.handle) is not None, old(self.handle).g_closed)'],
+    modifies=['ScalesSocket.handle', 'GSock.g_connected', 'GSock.g_closed'],
+    props=['C08'],
+  ),
+  'VarzSocketWrapper.__init__': dict(
+    file='scales/varz.py', cls='VarzSocketWrapper', params={'socket': 'ScalesSocket', 'varz_tag': 'any'}, returns='none',
+    requires=['allocated(socket)'],
+    ensures=['WrapInv(self)', 'self._socket == socket', 'self._is_open == (socket.handle is not None)'],
+    modifies=['VarzSocketWrapper._socket', 'VarzSocketWrapper._is_open', 'VarzSocketWrapper._varz'], allocates=True, drop=['Varz', 'Source'],
+    props=['C08'],
+  ),
+  'VarzSocketWrapper.isOpen': dict(file='scales/varz.py', cls='VarzSocketWrapper', inline=True),
+  # a failed open leaves the wrapper reporting closed (with its flag untouched); a successful one sets the flag
+  'VarzSocketWrapper.open': dict(
+    file='scales/varz.py', cls='VarzSocketWrapper', returns='none',
+    requires=['WrapInv(self)', 'self._socket.handle is None'],
+    ensures=['WrapInv(self)', 'self._is_open', 'implies(self._socket.handle is not None, self._socket.handle.g_connected)'],
+    raises={'error': dict(ensures=['WrapInv(self)', 'self._socket.handle is None', 'self._is_open == old(self._is_open)'])},
+    modifies=['VarzSocketWrapper._is_open', 'ScalesSocket.handle', 'GSock.g_connected', 'GSock.g_closed', '$cls'], allocates=True,
+    props=['C08'],
+  ),
+  # after close() the wrapper reports closed -- whatever happened before (this is what the transport's Close relies on)
+  'VarzSocketWrapper.close': dict(
+    file='scales/varz.py', cls='VarzSocketWrapper', returns='none',
+    requires=['WrapInv(self)'],
+    ensures=['WrapInv(self)', 'self._socket.handle is None', 'not self._is_open'],
+    modifies=['VarzSocketWrapper._is_open', 'ScalesSocket.handle', 'GSock.g_connected', 'GSock.g_closed'],
+    props=['C08'],
+  ),
+})
